@@ -383,6 +383,38 @@ def run(world, rep, tier, only=None):
     from rules import C20
     C20.flush2_writer_rules(world, prog, rep, "C01.m")
 
+    # ------------------------------------------------------------------ C01.n cloning a block in pass 1b leaves nothing for the next run
+    # clone_file_block() copies a multiply-claimed block to a new place.  (i) It is also handed the inode's EA block
+    # (block count BLOCK_COUNT_EXTATTR), whose checksum covers the number of the block it is stored in: that copy is
+    # written by the routine that computes the checksum, and the raw device write is not reached for it.  (ii) The
+    # claim the inode had on the old block is given up by deferred_dec_badcount(); after the walk over the mapped
+    # blocks and after the EA block was moved, every path to the end of clone_file() passes it - otherwise the
+    # other claimant is cloned as well and the old block stays marked with no owner.
+    p1b = {f.name: f for f in prog.fns_in_file("e2fsck/pass1b.c")}
+    cfb, cfl = p1b["clone_file_block"], p1b["clone_file"]
+    ea_lit = lambda a: "BLOCK_COUNT_EXTATTR" in T.macros(a) or (T.const(T.strip(a).get("r") if isinstance(T.strip(a), dict) else None) == -5)
+    raw = calls_to(cfb, "io_channel_write_blk64", "io_channel_write_blk")
+    cs_w = calls_to(cfb, "ext2fs_write_ext_attr3", "ext2fs_write_ext_attr2", "ext2fs_write_ext_attr")
+    direct = [c for c in calls_to(cfl, "clone_file_block")]
+    rep.floor("C01.n raw block writes in clone_file_block / EA call in clone_file", min(len(raw), len(direct)), 1)
+    for i, w_ in enumerate(raw):
+        off_ea = any((not t) and ea_lit(a) for t, a in control_lits(cfb, w_) if t is not None)
+        rep.ob("C01.n", site(cfb, "EA block is not copied by the raw device write#%d" % i), off_ea and bool(cs_w) and
+               all(any(t and ea_lit(a) for t, a in control_lits(cfb, c) if t is not None) for c in cs_w),
+               "io_channel_write_blk64() lies on the `blockcnt != BLOCK_COUNT_EXTATTR` side: %s; ext2fs_write_ext_attr3() "
+               "(checksum from the new block number) on the other: %d call(s)" % (off_ea, len(cs_w)))
+    dd = calls_to(cfl, "deferred_dec_badcount")
+    walks1b = calls_to(cfl, "ext2fs_block_iterate3")
+    for i, c in enumerate(walks1b):
+        rep.ob("C01.n", site(cfl, "claim on the last cloned block given up after the walk#%d" % i), bool(dd) and cfl.must_pass_after(c, dd),
+               "deferred_dec_badcount() follows ext2fs_block_iterate3(…, clone_file_block, …) on every path")
+    moved = [n for n in calls_to(cfl, "ext2fs_file_acl_block_set") if any(t and any(cc.get("fn") == "clone_file_block" for cc in T.calls(a))
+                                                                           for t, a in control_lits(cfl, n) if t is not None)]
+    rep.floor("C01.n stores of the cloned EA block in clone_file", len(moved), 1)
+    for i, n in enumerate(sorted(moved, key=lambda x: x.line)[:1]):
+        rep.ob("C01.n", site(cfl, "claim on the old EA block given up after it was cloned"), bool(dd) and cfl.must_pass_after(n, dd),
+               "every path from `ext2fs_file_acl_block_set(…, new_blk)` to the end of clone_file() passes deferred_dec_badcount()")
+
     # ------------------------------------------------------------------ C01.g bitmap checksum verification skipped only for a dirty own bitmap
     p5 = {f.name: f for f in prog.fns_in_file("e2fsck/pass5.c")}
     pass5 = p5.get("e2fsck_pass5")
